@@ -72,7 +72,8 @@ struct OpRec
     std::vector<Red> reds;
     struct TermF { int term; int64_t off; int64_t len; uint32_t seq; };
     std::vector<TermF> termfs;
-    struct Lex { int64_t pos; int line; int col; int idx; int64_t len; uint32_t seq; int verbose; int64_t end_pos; };
+    struct Lex { int64_t pos; int line; int col; int idx; int64_t len; uint32_t seq; int verbose; int64_t end_pos; int64_t inst_calls; int64_t inst_last; };
+    int64_t lexer_state_clobbered = 0;       // the lexer instance's own scratch member changed under a request
     std::vector<Lex> lexes;
     int64_t ctx_foreign = 0, ctx_touches = 0;
     // value ledger
@@ -119,7 +120,8 @@ int64_t wr(const char* p, int64_t n);    // returns number of bytes accepted
 void termf(int term, const char* p, int64_t len);
 void red(int rule, uint64_t digest, uint64_t sdigest, int ctx);
 void ctx_touch(const void* addr);
-LexAnswer lex(int64_t pos, int line, int col, bool verbose, int64_t end_pos);
+LexAnswer lex(int64_t pos, int line, int col, bool verbose, int64_t end_pos, int64_t inst_calls = 0, int64_t inst_last = -1);
+void lexer_state_clobbered();
 int64_t ptr_pos(const char* p);          // position of a raw pointer relative to the op's buffer
 void step(bool stacks_ok);
 void lstep(bool state_ok);
